@@ -2610,11 +2610,14 @@ class Tree:
         max_branch_length = max(
             1, self.time(root) - np.min(self.tree_sequence.nodes_time)
         )
-        max_label_size = math.ceil(math.log10(self.tree_sequence.num_nodes))
-        single_node_size = (
-            5 + max_label_size + math.ceil(math.log10(max_branch_length)) + precision
-        )
-        buffer_size = 1 + single_node_size * self.tree_sequence.num_nodes
+        # Worst case per node: "(" ")" "," ":" + "n" + the digits of the largest
+        # label + the integer digits of the longest branch + "." + precision digits.
+        # Count digits exactly (ceil(log10(x)) is one short for x = 1, 10, 100, ...
+        # and 0 for every branch length below 10).
+        max_label_size = 1 + len(str(self.tree_sequence.num_nodes))
+        integer_digits = len(str(int(max_branch_length)))
+        single_node_size = 4 + max_label_size + integer_digits + 1 + precision
+        buffer_size = 2 + single_node_size * self.tree_sequence.num_nodes
         return self._ll_tree.get_newick(
             precision=precision,
             root=root,
